@@ -55,7 +55,7 @@ func verifHasComma(vals ...string) bool {
 //
 //verif:reach one-pipeline two-pipelines
 func VerifC06_PipelinePerKeyTuple() {
-	maxLen := 2
+	maxLen := 2 + sym.Tier()
 	a0, a1 := verifKeyValue("app1", maxLen, true), verifKeyValue("level1", maxLen, true)
 	b0, b1 := verifKeyValue("app2", maxLen, true), verifKeyValue("level2", maxLen, true)
 	st := &verifStarter{}
